@@ -3,8 +3,9 @@ Line-protocol driver over the executable models (no Mathlib in anything imported
 One request per line on stdin, one reply line per request on stdout.
 -/
 import SnapraidVerif.Raid.Spec
+import SnapraidVerif.Codec.Content
 
-open SnapraidVerif SnapraidVerif.GF SnapraidVerif.Raid
+open SnapraidVerif SnapraidVerif.GF SnapraidVerif.Raid SnapraidVerif.Codec
 
 namespace Driver
 
@@ -26,6 +27,33 @@ partial def parseHexAux : List Char → List B → Option (List B)
     | _, _ => none
 
 def parseHex (s : String) : Option (List B) := parseHexAux s.toList []
+
+def parseHex8 (s : String) : Option (List UInt8) := (parseHex s).map fun l => l.map fun b => UInt8.ofNat b.toNat
+def hex8 (l : List UInt8) : String := String.join (l.map fun b => hexByte b.toNat)
+
+def kindStr : BlkKind → String
+  | .blk => "b" | .chg => "g" | .rep => "p" | .new => "n"
+
+def dumpRec : Rec → String
+  | .blockSize v => s!"z {v}"
+  | .blockMax v => s!"x {v}"
+  | .hashSize v => s!"y {v}"
+  | .hash k seed => s!"c {Char.ofNat k.toNat} {hex8 seed}"
+  | .prevHash k seed => s!"C {Char.ofNat k.toNat} {hex8 seed}"
+  | .map _ name pos tot free uuid => s!"M {hex8 name} {pos} {tot} {free} {hex8 uuid}"
+  | .parityP l t f uuid => s!"P {l} {t} {f} :{hex8 uuid}:0"
+  | .parityQ l t f sp => s!"Q {l} {t} {f} " ++ String.intercalate " " (sp.map fun x => s!"{hex8 x.path}:{hex8 x.uuid}:{x.size}")
+  | .file m size sec nsec inode sub runs =>
+    s!"f {m} {size} {sec} {nsec} {inode} {hex8 sub} " ++
+      String.intercalate " " (runs.map fun r => s!"{kindStr r.kind}:{r.pos}:{r.count}:" ++ String.intercalate "," (r.hashes.map hex8))
+  | .symlink m sub lt => s!"s {m} {hex8 sub} {hex8 lt}"
+  | .hardlink m sub lt => s!"a {m} {hex8 sub} {hex8 lt}"
+  | .dir m sub => s!"r {m} {hex8 sub}"
+  | .hole m runs => s!"h {m} " ++ String.intercalate " " (runs.map fun r => match r with
+      | .deleted hs => "o" ++ String.intercalate "," (hs.map hex8)
+      | .skip n => s!"O{n}")
+  | .info oldest runs => s!"i {oldest} " ++ String.intercalate " " (runs.map fun r => s!"{r.count}:{r.flag}:{r.time}")
+  | .crc v => s!"N {v}"
 
 def chunks (n : Nat) : Nat → List B → List (List B)
   | 0, _ => []
@@ -59,6 +87,26 @@ def handle (toks : List String) : String :=
       | some V => hexOfBytes V.flatten
       | none => "singular"
     | _, _ => "bad-op"
+  | ["content-dump", bs, hex] =>
+    match bs.toNat?, parseHex8 hex with
+    | some bs, some bytes =>
+      match parse bs bytes with
+      | none => "reject"
+      | some p => s!"ok v={p.version} bs={p.ctx.blockSize} bmax={p.ctx.blockMax} hs={p.ctx.hashSize} | " ++
+          String.intercalate " | " (p.recs.map dumpRec)
+    | _, _ => "bad-op"
+  | ["content-reser", bs, hex] =>
+    match bs.toNat?, parseHex8 hex with
+    | some bs, some bytes =>
+      match parse bs bytes with
+      | none => "reject"
+      | some p => hex8 (reserialize p)
+    | _, _ => "bad-op"
+  | ["crc32c", hex] =>
+    match parseHex8 hex with
+    | some bytes => toString (crc32c 0 bytes).toNat
+    | none => "bad-op"
+  | ["crc32c"] => toString (crc32c 0 []).toNat
   | _ => "bad-op"
 
 partial def loop (h : IO.FS.Stream) (out : IO.FS.Stream) : IO Unit := do
